@@ -25,6 +25,7 @@ RULES = """#ruledef
     jr {addr: u16} => 0x10 @ addr
     jr {addr} => { rel = addr - $ - 2, assert(rel >= -8 && rel <= 7), 0x21 @ rel`8 }
     ref {x} => 0xcc @ x`8
+    pair {x}, {addr} => 0xdd @ x`8 @ addr`8
     gr {x} => { assert(x < %(T)d), 0xa1 }
     gr {x} => { assert(x >= %(T)d), 0xa2a2 }
     sh {x} => { assert(x < %(U)d), 0xb2b2 }
@@ -77,6 +78,18 @@ def gen_program(rng, n=None):
     labels = ["l%d" % i for i in range(rng.randrange(1, 5))]
     consts = []
     lines = []
+    # name collisions (findings F30/F31): statically known constants and labels named like rule
+    # parameters, so that the statically-known analysis must not confuse a parameter with a global
+    collide = rng.random() < 0.3
+    if collide:
+        pnames = ["x", "addr", "a", "b", "r", "s", "rel"]
+        rng.shuffle(pnames)
+        k = rng.randrange(1, 4)
+        for nm in pnames[:k]:
+            lines.append("%s = %s" % (nm, rng.choice(["1", "3", "0x10", "2 + 2"])))
+            consts.append(nm)
+        if rng.random() < 0.5:
+            labels = pnames[k:k + len(labels)] or labels
     pending = list(labels)
     rng.shuffle(pending)
     def operand():
@@ -104,6 +117,8 @@ def gen_program(rng, n=None):
             lines.append("    jr " + operand())
         elif r < 0.42:
             lines.append("    %s %s" % (rng.choice(["ld", "st", "gr", "sh", "ref"]), operand()))
+        elif r < 0.44 or (collide and r < 0.5):
+            lines.append("    pair %s, %s" % (operand(), operand()))
         elif r < 0.46 and nblk:
             lines.append("    blk%d %s" % (rng.randrange(nblk), operand()))
         elif r < 0.54:
@@ -140,6 +155,7 @@ BLOCK_RULES = """#ruledef
 {
     nop => 0x00
     ref {x} => 0xcc @ x`8
+    pair {x}, {addr} => 0xdd @ x`8 @ addr`8
     gr {x} => { assert(x < %(T)d), 0xa1 }
     gr {x} => { assert(x >= %(T)d), 0xa2a2 }
     sh {x} => { assert(x < %(U)d), 0xb2b2 }
